@@ -284,6 +284,9 @@ func (s *InmemStore) SetFrame(frame *Frame) error {
 
 // Reset implements the Store interface.
 func (s *InmemStore) Reset(frame *Frame) error {
+	if handled, err := simResetStore(s, frame); handled {
+		return err
+	}
 	//Clear all caches
 	s.peerSetCache = NewPeerSetCache()
 	s.eventCache = cm.NewLRU(s.cacheSize, nil)
